@@ -1,6 +1,10 @@
 import ScyllaVerif.Model.Util
 import ScyllaVerif.Model.Speculative
+import ScyllaVerif.Model.SpecStmtConfig
 /-! Line-protocol driver for C13.
+
+* `cfg <stmt|prep|batch> <op,op,…|->`             — the public setters of `Statement` / `PreparedStatement` / `Batch`
+  (`Model/SpecStmtConfig.lean`): what every getter shows afterwards, `is_idempotent` first;
 
 * `class <ok|Error>`                             — `canBeIgnored` on one value of the error universe
   (`Name` or `Name(payload,…)`): `ignorable` / `definitive`;
@@ -530,8 +534,61 @@ def runPPlan (ws : List String) (impl : String) : String :=
         | _ => "REJECT unparsable"
   | _, _, _, _, _ => "bad-case"
 
+/-! ### `cfg`: setter calls on a statement object -/
+namespace Cfg
+open ScyllaVerif.SpecStmtConfig
+
+def natArg (s : String) (pre : Nat) (max : Nat) : Option Nat :=
+  match (s.drop pre).toString.toNat? with
+  | some n => if n ≤ max then some n else none
+  | none => none
+
+/-- `n` = `None`, else a number up to `max`. -/
+def optArg (s : String) (pre : Nat) (max : Nat) : Option (Option Nat) :=
+  if (s.drop pre).toString == "n" then some none else (natArg s pre max).map some
+
+def parseOp (s : String) : Option Op :=
+  if s == "uc" then some .unsetConsistency
+  else if s == "us" then some .unsetSerial
+  else if s == "cl" then some .clone
+  else if s == "rh" then some .removeHistory
+  else if s == "i0" then some (.setIdempotent false)
+  else if s == "i1" then some (.setIdempotent true)
+  else if s == "tr0" then some (.setTracing false)
+  else if s == "tr1" then some (.setTracing true)
+  else if s == "k0" then some (.setSkipMeta false)
+  else if s == "k1" then some (.setSkipMeta true)
+  else if s == "tsn" then some (.setTimestamp none)
+  else if s.startsWith "ts" then
+    match (s.drop 2).toString.toInt? with
+    | some t => if -9223372036854775808 ≤ t && t ≤ 9223372036854775807 then some (.setTimestamp (some t)) else none
+    | none => none
+  else if s.startsWith "to" then (optArg s 2 1000000000).map .setTimeout
+  else if s.startsWith "c" then (natArg s 1 10).map .setConsistency
+  else if s.startsWith "s" then (optArg s 1 1).map .setSerial
+  else if s.startsWith "h" then (natArg s 1 2).map .setHistory
+  else if s.startsWith "p" then (optArg s 1 2).map .setProfile
+  else if s.startsWith "l" then (optArg s 1 2).map .setLb
+  else if s.startsWith "r" then (optArg s 1 2).map .setRetry
+  else if s.startsWith "g" then (natArg s 1 2147483647).map .setPageSize
+  else none
+
+def parseKind (s : String) : Option Kind :=
+  if s == "stmt" then some .stmt else if s == "prep" then some .prepared else if s == "batch" then some .batch else none
+
+def run (kind ops : String) : String :=
+  let opsP : Option (List Op) := if ops == "-" then some [] else (ops.splitOn ",").mapM parseOp
+  match parseKind kind, opsP with
+  | some k, some ops =>
+    if ops.length > 64 || !ops.all (fun o => o.allowedOn k) then "bad-case"
+    else SpecStmtConfig.render k (SpecStmtConfig.applyAll {} ops)
+  | _, _ => "bad-case"
+
+end Cfg
+
 def run (case impl : String) : String :=
   match words case with
+  | ["cfg", kind, ops] => Cfg.run kind ops
   | ["class", o] =>
     let cls (b : Bool) := if b then "ignorable" else "definitive"
     if o == "ok" then cls (canBeIgnored (.ok (0, false) : Res Pay))
